@@ -114,8 +114,10 @@ Section NoClosed.
     pose proof (step_policy_apply_filter sc Qn Ct Ct_refl s (p_id p)) as P.
     destruct (policy_apply_filter sc s (p_id p)) as [s1 f1]. cbn [fst] in P.
     destruct (match f1 with FPass => _ | _ => _ end); try ns.
-    pose proof (n_kubectl_apply s1 l) as K. destruct (kubectl_apply sc s1 l) as [s2 r]. cbn [fst] in K.
-    pose proof (n_tr _ _ _ P K) as PK. destruct r; ns.
+    pose proof (step_mutate sc Qn Ct Ct_refl Ct_trans s1 l) as M. destruct (mutate sc s1 l) as [sm okm]. cbn [fst] in M.
+    pose proof (n_tr _ _ _ P M) as PM. destruct okm; cbn [negb]; [|ns].
+    pose proof (n_kubectl_apply sm l) as K. destruct (kubectl_apply sc sm l) as [s2 r]. cbn [fst] in K.
+    pose proof (n_tr _ _ _ PM K) as PK. destruct r; ns.
   Qed.
 
   Lemma n_prune_one pl locals g uids s p : nstep s (prune_one sc pl locals g uids s p).
